@@ -442,6 +442,126 @@ impl<C: Cost + Ord + Eq + Clone + Debug> Extractor<C> {
                 .backend
                 .for_each(func.backend_id, save_best_parent_edge);
         }
+
+        // The rank guard above can reject every best edge of a class when costs tie
+        // (e.g. after saturation), leaving a class with a cost but no parent edge; a class
+        // whose recorded edge leads to such a class cannot be reconstructed either.
+        // Repair: compute the *grounded* classes (their edge only has grounded children, so
+        // reconstruction from them terminates), keeping every recorded edge that is already
+        // grounded, and give each remaining class any best edge whose children are grounded.
+        // The grounded set only grows, so the final choice of edges is acyclic.
+        let unresolved = self
+            .costs
+            .iter()
+            .any(|(sort, costs)| costs.len() != self.parent_edge.get(sort).map_or(0, |m| m.len()));
+        if unresolved {
+            let mut grounded: HashMap<String, HashSet<Value>> = self
+                .costs
+                .keys()
+                .map(|sort| (sort.clone(), Default::default()))
+                .collect();
+            loop {
+                // Recorded edges whose children are all grounded.
+                let mut newly_grounded = Vec::new();
+                for (sort, edges) in self.parent_edge.iter() {
+                    for (target, (func_name, vals)) in edges.iter() {
+                        if grounded[sort].contains(target) {
+                            continue;
+                        }
+                        let func = egraph.functions.get(func_name).unwrap();
+                        if self.children_grounded(egraph, vals, func, &grounded) {
+                            newly_grounded.push((sort.clone(), *target));
+                        }
+                    }
+                }
+                let mut progress = !newly_grounded.is_empty();
+                for (sort, target) in newly_grounded {
+                    grounded.get_mut(&sort).unwrap().insert(target);
+                }
+                if progress {
+                    continue;
+                }
+                // No recorded edge can be grounded any more: pick new best edges.
+                for func_name in funcs.iter() {
+                    let func = egraph.functions.get(func_name).unwrap();
+                    let target_sort = func.extraction_output_sort();
+                    let output_idx = func.extraction_output_index();
+
+                    let ground_with_best_edge = |row: egglog_bridge::ScanEntry| {
+                        if row.subsumed {
+                            return;
+                        }
+                        let target = &row.vals[output_idx];
+                        if grounded[target_sort.name()].contains(target) {
+                            return;
+                        }
+                        let Some(best_cost) =
+                            self.costs.get(target_sort.name()).unwrap().get(target)
+                        else {
+                            return;
+                        };
+                        if Some(best_cost.clone())
+                            != self.compute_cost_hyperedge(egraph, &row, func)
+                            || !self.children_grounded(egraph, &row.vals, func, &grounded)
+                        {
+                            return;
+                        }
+                        self.parent_edge
+                            .get_mut(target_sort.name())
+                            .unwrap()
+                            .insert(*target, (func.decl.name.clone(), row.vals.to_vec()));
+                        grounded
+                            .get_mut(target_sort.name())
+                            .unwrap()
+                            .insert(*target);
+                        progress = true;
+                    };
+
+                    egraph
+                        .backend
+                        .for_each(func.backend_id, ground_with_best_edge);
+                }
+                if !progress {
+                    break;
+                }
+            }
+        }
+    }
+
+    /// Whether every e-class reachable from `value` is in `grounded`.
+    fn node_grounded(
+        &self,
+        egraph: &EGraph,
+        value: Value,
+        sort: &ArcSort,
+        grounded: &HashMap<String, HashSet<Value>>,
+    ) -> bool {
+        if sort.is_container_sort() {
+            sort.inner_values(egraph.backend.container_values(), value)
+                .iter()
+                .all(|(sort, value)| self.node_grounded(egraph, *value, sort, grounded))
+        } else if sort.is_eq_sort() {
+            grounded
+                .get(sort.name())
+                .is_some_and(|classes| classes.contains(&value))
+        } else {
+            true
+        }
+    }
+
+    fn children_grounded(
+        &self,
+        egraph: &EGraph,
+        vals: &[Value],
+        func: &Function,
+        grounded: &HashMap<String, HashSet<Value>>,
+    ) -> bool {
+        let sorts = &func.func_type.input;
+        let num_children = func.extraction_num_children();
+        vals.iter()
+            .take(num_children)
+            .zip(sorts.iter())
+            .all(|(value, sort)| self.node_grounded(egraph, *value, sort, grounded))
     }
 
     /// This recursively reconstruct the termdag that gives the minimum cost for eclass value.
